@@ -26,7 +26,8 @@ Inductive ckind :=
 | CTrunc (c secret seed n : N).
 Record conn := { k_kind : ckind; k_fin : bool; k_validate : bool; k_connect_ok : bool; k_tout : N * N;
                  k_tlate : N * N;     (* a second block the target sends long after the handshake timeout *)
-                 k_treset : bool }.   (* the target reads the whole upload, sends its output, then resets *)
+                 k_treset : bool;     (* the target reads the whole upload, sends its output, then resets *)
+                 k_creset : bool }.   (* the client, once everything was relayed and it has the target's output, resets *)
 
 (* observation of one connection *)
 Record cobs := {
@@ -171,10 +172,15 @@ Fixpoint run_conns (e : env) (st : astate) (i : N) (cs : list conn) : list cobs 
       let '(e', w) := wire_of e i (k_kind c) in
       let ci := {| ci_ip := 1; ci_bytes := w; ci_fin := k_fin c; ci_validate := k_validate c;
                    ci_connect_ok := k_connect_ok c; ci_resolved := resolved_of (k_kind c); ci_target_out := gb (fst (k_tout c)) (snd (k_tout c)) ++ gb (fst (k_tlate c)) (snd (k_tlate c));
-                   ci_target_reset := k_treset c |} in
+                   ci_target_reset := k_treset c; ci_client_reset := k_creset c |} in
       let '(st', res) := handle e' st ci in
       match res with
-      | Ok evs => obs_of (k_fin c) evs :: run_conns e' st' (i + 1) r
+      | Ok evs =>
+          let o := obs_of (k_fin c) evs in
+          (* a client that aborted cannot see how the server closes: class 7 *)
+          (if k_creset c then {| ob_status := ob_status o; ob_auth := ob_auth o; ob_probe := ob_probe o; ob_cp := ob_cp o; ob_pt := ob_pt o;
+                                 ob_tp := ob_tp o; ob_target := ob_target o; ob_client := ob_client o; ob_close := 7 |} else o)
+          :: run_conns e' st' (i + 1) r
       | Panic => {| ob_status := 66; ob_auth := []; ob_probe := None; ob_cp := 0; ob_pt := 0; ob_tp := 0;
                     ob_target := None; ob_client := (0, 0); ob_close := 99 |} :: run_conns e' st' (i + 1) r
       end
